@@ -199,7 +199,7 @@ pub fn judge(h: &History, recs: &[StepRec]) -> Result<(u32, u32), Failure> {
     let mut judged = 0u32;
     let mut acks = 0u32;
     // answers owed to the next uplink, and the sticky subset for the ones after
-    let mut pending: Option<(Vec<(u8, usize)>, Vec<Req>, VerifSnapshot, VerifSnapshot, usize)> = None;
+    let mut pending: Option<(Vec<(u8, usize)>, Vec<Req>, VerifSnapshot, VerifSnapshot, usize, Option<u32>)> = None;
     let mut sticky: Vec<(u8, Vec<u8>)> = vec![];
     let mut sticky_known = true;
     // the join-channel bias of fixed plans may choose channel and data rate of data frames until a
@@ -231,7 +231,7 @@ pub fn judge(h: &History, recs: &[StepRec]) -> Result<(u32, u32), Failure> {
             if answers_bytes.len() > 15 {
                 return Err(Failure::new("answers-15-bytes", case(), format!("step {}: {} bytes of MAC answers", r.index, answers_bytes.len())));
             }
-            if let Some((exp, reqs, s0, s1, at)) = pending.take() {
+            if let Some((exp, reqs, s0, s1, at, tx_bw)) = pending.take() {
                 // (1) one answer per handled request, in order; only trailing answers may be missing
                 let got_cids: Vec<u8> = ans.iter().map(|a| a.0).collect();
                 let exp_cids: Vec<u8> = exp.iter().map(|e| e.0).collect();
@@ -270,7 +270,12 @@ pub fn judge(h: &History, recs: &[StepRec]) -> Result<(u32, u32), Failure> {
                         if fixed {
                             let need_500 = reg.dr(r.data_rate).map(|x| x.1 == 500_000).unwrap_or(false);
                             let any = r.effective(true).iter().any(|c| (*c >= 64) == need_500);
-                            if !any {
+                            // (only the regular selector does that: while a join-channel bias still
+                            // picks the channel, the frame goes out at the bias channel's own data
+                            // rate and the mask stays as it was — recognisable by the bandwidth on
+                            // the air not being the one of the data rate in force)
+                            let regular = tx_bw.map(|bw| (bw == 500_000) == need_500).unwrap_or(true);
+                            if !any && regular {
                                 r.mask = [0xFF; 9];
                             }
                         } else if r.effective(false).is_empty() {
@@ -501,7 +506,7 @@ pub fn judge(h: &History, recs: &[StepRec]) -> Result<(u32, u32), Failure> {
                     reqs.extend(parse_reqs(plain));
                 }
                 let exp = expected_answers(&reqs, fixed);
-                pending = Some((exp, reqs, r.snap_before, r.snap_after, r.index));
+                pending = Some((exp, reqs, r.snap_before, r.snap_after, r.index, r.txs.iter().find(|t| !t.join).map(|t| t.rf.bw_hz)));
                 sticky.clear();
             }
         }
@@ -564,7 +569,7 @@ pub fn history_strategy() -> impl Strategy<Value = History> {
 }
 
 pub fn replay(case: &Value, _kf: &KnownFindings) -> Result<(), Failure> {
-    let h = History::from_json(case);
+    let h = super::cross::case_history(case);
     let (_, recs) = run_history(&h).map_err(|e| Failure::new("harness", h.json(), e))?;
     if std::env::var("VERIF_DEBUG").is_ok() {
         eprintln!("{}", render(&recs, 50));
